@@ -17260,6 +17260,13 @@ func (p *parser) recordExport(loc logger.Loc, alias string, ref ast.Ref) {
 			[]logger.MsgData{p.tracker.MsgData(js_lexer.RangeOfIdentifier(p.source, name.AliasLoc),
 				fmt.Sprintf("The name %q was originally exported here:", alias))})
 	} else {
+		// If this symbol was merged (e.g. "export var x = 1; var x = 2"), export
+		// the symbol at the end of the linked list. That is the symbol that
+		// "topLevelSymbolToParts" maps to the parts declaring it, which is how
+		// the linker finds the parts an import of this export depends on.
+		for p.symbols[ref.InnerIndex].Link != ast.InvalidRef {
+			ref = p.symbols[ref.InnerIndex].Link
+		}
 		p.namedExports[alias] = js_ast.NamedExport{AliasLoc: loc, Ref: ref}
 	}
 }
